@@ -37,7 +37,7 @@ type vfUpReply struct {
 	Status  int
 	Headers [][2]string
 	Body    []byte
-	Fault   string // "", "reset", "hang"
+	Fault   string // "", "reset", "hang", "cut" (headers and half of the body, then the connection breaks)
 	Early   bool   // send "103 Early Hints" before the final response
 }
 
@@ -135,6 +135,14 @@ func (u *vfUpstream) ServeHTTP(rw http.ResponseWriter, r *http.Request) {
 		rw.Header().Add(kv[0], kv[1])
 	}
 	rw.WriteHeader(rep.Status)
+	if rep.Fault == "cut" {
+		w.fault("upstream:cut")
+		rw.Write(rep.Body[:len(rep.Body)/2])
+		if f, ok := rw.(http.Flusher); ok {
+			f.Flush()
+		}
+		panic(http.ErrAbortHandler) // no terminating chunk: the stream simply ends
+	}
 	rw.Write(rep.Body)
 }
 
